@@ -2,7 +2,9 @@
 
    The bodies [real_*_body] and [string_ife_body] are regenerated from
    /repo/src/kernel/gp/src/primitive/{real,string}.h on every check run
-   (coq/Gen/Prims.v); [run_body] runs them under the C++ semantics of
+   (coq/Gen/Prims.v), together with the helpers they call -- issmall<double> of
+   utility.h (the tolerance test), has_value of value.h, real::base -- which are
+   parsed and inlined at their call sites; [run_body] runs them under the C++ semantics of
    Cxx/CxxMini.v over Flocq's binary64 (Base/F64.v); an exception
    (std::bad_variant_access) is the outcome [Throw], undefined behaviour is
    [Stuck].  Vocabulary (Prims/RealDefs.v):
